@@ -265,12 +265,12 @@ func (ex *Exec) convert(x Val, from, to types.Type) Val {
 					return mkInt(mkZext(v.T, int(w)), w, s)
 				}
 			case d.Info()&types.IsFloat != 0:
-				if v.T != nil {
-					unsupported("symbolic int to float conversion")
-				}
 				fw := uint8(64)
 				if d.Kind() == types.Float32 {
 					fw = 32
+				}
+				if v.T != nil {
+					return symFloat(fpFromInt(v.T, v.S, fw), fw)
 				}
 				if v.S {
 					return fl(float64(v.signed()), fw)
@@ -284,12 +284,31 @@ func (ex *Exec) convert(x Val, from, to types.Type) Val {
 		if d, ok := dst.(*types.Basic); ok {
 			switch {
 			case d.Info()&types.IsFloat != 0:
+				if v.T != nil {
+					to := uint8(64)
+					if d.Kind() == types.Float32 {
+						to = 32
+					}
+					if to == v.W {
+						return v
+					}
+					return symFloat(fpToFp(v.T, to), to)
+				}
+				if v.U {
+					unsupported("conversion of a float parsed from symbolic digits")
+				}
 				if d.Kind() == types.Float32 {
 					return fl(v.V, 32)
 				}
 				return Float{V: v.V, W: 64}
 			case d.Info()&types.IsInteger != 0:
 				w, s := intInfo(d)
+				if v.T != nil {
+					return mkInt(fpToInt(v.T, int(w), s), w, s)
+				}
+				if v.U {
+					unsupported("conversion of a float parsed from symbolic digits")
+				}
 				if math.IsNaN(v.V) || math.IsInf(v.V, 0) {
 					return Int{W: w, S: s}
 				}
